@@ -109,13 +109,12 @@ theorem parseDns_some {p : Bytes} {q : Spec.DMsg} (h : Spec.parseDns p = some q)
         exact ⟨by omega, rfl, rfl, rfl, rfl, readQuestions_length _ _ _ _ hqs, readRRs_length _ _ _ _ han,
           r, hqs, han⟩
 
-/-- the Spec's questions, NUL-free, are the model's questions -/
-theorem dnsReadQs_of_parseDns {p : Bytes} {q : Spec.DMsg} (h : Spec.parseDns p = some q)
-    (hn : ∀ x ∈ q.qd, Spec.labelsNoNul 256 x.name = true) :
+/-- the Spec's questions (whatever octets their labels contain) are the model's questions -/
+theorem dnsReadQs_of_parseDns {p : Bytes} {q : Spec.DMsg} (h : Spec.parseDns p = some q) :
     ∃ r, dnsReadQs (Spec.be16 p 4) (p.drop 12) = some (q.qd.map toQ, r) ∧
       Spec.readRRs (Spec.be16 p 6) r = some (q.an, q.rest) := by
   obtain ⟨_, _, _, _, _, _, _, r, hqs, han⟩ := parseDns_some h
-  exact ⟨r, dnsReadQs_of_readQuestions _ _ _ _ hqs hn, han⟩
+  exact ⟨r, dnsReadQs_of_readQuestions _ _ _ _ hqs, han⟩
 
 theorem zip_map_all {α β : Type} (f : α → β) (P : α × β → Bool) : ∀ l : List α,
     (List.zip l (l.map f)).all P = l.all (fun x => P (x, f x)) := by
